@@ -102,7 +102,16 @@ End G.
 
 (* which rules reject the probe request of their module (harness/internal/rulesh: Blocks) *)
 Definition flow_blocks (r : frule) : bool :=
-  (f_thr r =? 0)%float && (f_tcs r =? 0).   (* reject: 0+1 > 0 on whichever node it reads; throttling: threshold <= 0 *)
+  (* direct calculator; throttling rejects a threshold <= 0; reject rejects iff count+1 > threshold, the
+     count being 3 for an associated-resource rule on the probe's referenced resource (id 9: three
+     requests were just admitted there) and 0 otherwise *)
+  if f_tcs r =? 1 then (f_thr r =? 0)%float   (* warm-up without tokens *)
+  else
+  (f_tcs r =? 0)
+  && (if f_cb r =? 1 then (f_thr r <=? 0)%float
+      else if f_cb r =? 0 then
+        (if (f_rel r =? 1) && (f_ref r =? 9) then (f_thr r <? 4)%float else (f_thr r <? 1)%float)
+      else false).
 Definition iso_blocks (r : irule) : bool := i_thr r <? 5.          (* the probe is a batch of 5 *)
 (* the probe carries two arguments and the attachment key: the rule finds its parameter iff it has a
    param key or a param index in -2..1 *)
